@@ -43,13 +43,13 @@ type Witness struct {
 }
 
 type Result struct {
-	Failed   []string          // obligation ids whose assertion failed natively
-	Notes    map[string]string // id -> note
-	Reached  []string
-	Assumes  int
+	Failed    []string          // obligation ids whose assertion failed natively
+	Notes     map[string]string // id -> note
+	Reached   []string
+	Assumes   int
 	BadAssume []string
-	Observed map[string]string
-	Tags     []string
+	Observed  map[string]string
+	Tags      []string
 }
 
 var (
